@@ -391,7 +391,8 @@ func (lb *LB) wrapOK(x *ssa.BinOp) bool {
 		if bits >= 64 {
 			// 64-bit arithmetic (overflow mode): the exact result stays far inside the int64 range
 			// (2^49: every length is below 2^48, and the prover keeps its constants below 2^50)
-			hi, lo = int64(1)<<49, -(int64(1) << 49)
+			// 3*2^48 rather than 2^49: the sum of two lengths plus a small constant is still in range
+			hi, lo = int64(3)<<48, -(int64(3) << 48)
 			if uns {
 				lo = 0
 			}
@@ -705,6 +706,31 @@ func (lb *LB) incNonneg(v ssa.Value) bool {
 	return false
 }
 
+// linInduction: a two-edge header phi [init, phi + step] with a non-zero constant step and an init that is linear in
+// values defined outside the loop; returns the index of the init edge too
+func (lb *LB) linInduction(phi *ssa.Phi) (lin, int64, int, bool) {
+	if len(phi.Edges) != 2 || !isLoopHeader(phi.Block()) {
+		return lin{}, 0, 0, false
+	}
+	for i := 0; i < 2; i++ {
+		a := affineOf(phi.Edges[1-i])
+		if len(a.coef) != 1 || a.coef[phi] != 1 || a.k == 0 {
+			continue
+		}
+		if !phi.Block().Dominates(phi.Block().Preds[1-i]) || phi.Block().Dominates(phi.Block().Preds[i]) {
+			continue
+		}
+		init := lb.linOf(phi.Edges[i])
+		for v := range init.c {
+			if in, ok := v.v.(ssa.Instruction); ok && in.Block() != nil && phi.Block().Dominates(in.Block()) {
+				return lin{}, 0, 0, false
+			}
+		}
+		return init, a.k, i, true
+	}
+	return lin{}, 0, 0, false
+}
+
 // sameBackEdges: both phis take their increment on exactly the same incoming edges
 func sameBackEdges(a, b *ssa.Phi) bool {
 	if a.Block() != b.Block() || len(a.Edges) != 2 {
@@ -932,6 +958,10 @@ func (lb *LB) defFacts(v lvar) []cons {
 		if lb.ovf && !isLoopHeader(x.Block()) {
 			out = append(out, lb.joinUpper(x)...)
 		}
+		// w = max(K, len(v)): w >= K and w >= len(v)
+		if k, of, ok := maxPhi(x); ok {
+			out = append(out, ge(me, linConst(k)), ge(me, lb.lenLin(of)))
+		}
 		if b, ok := lb.accumBound(x); ok {
 			out = append(out, ge(me, linConst(0)), le(me, linConst(b)))
 		}
@@ -947,6 +977,25 @@ func (lb *LB) defFacts(v lvar) []cons {
 		}
 		for _, inv := range lb.loopUpperInvariants(x) {
 			out = append(out, inv)
+		}
+		// lockstep induction with a linear (not constant) start: lo from 0 up, hi from len-1 down
+		if xi, xs, xe, ok := lb.linInduction(x); ok {
+			for _, q := range phisOf(x.Block()) {
+				if q == x {
+					continue
+				}
+				_, okx := inductionOf(x)
+				_, okq := inductionOf(q)
+				if okx && okq {
+					continue // both constant: the rule below
+				}
+				if qi, qs, qe, ok := lb.linInduction(q); ok && qe == xe {
+					// (x - x0)*sq == (q - q0)*sx
+					l := me.addScaled(xi, -1).scale(qs)
+					r := linVar(lvar{0, q}).addScaled(qi, -1).scale(xs)
+					out = append(out, eqc(l, r)...)
+				}
+			}
 		}
 		// lockstep induction: two counters of one loop header advancing once per back edge
 		if iv, ok := inductionOf(x); ok && iv.step != 0 {
